@@ -216,6 +216,10 @@ class World:
             return 'ok', sym
         if kind == 'cur':
             functional, other = O.iso_table()
+            if ev[1] in getattr(self, 'user_currencies', ()):
+                # the symbol belongs to a directly declared currency (the
+                # harness declares those without name): not the ISO one
+                return 'reject', 'duplicate symbol'
             if ev[1] in functional:
                 return 'ok', None
             return 'reject', 'unknown code'
@@ -334,6 +338,9 @@ class World:
                     kw['smallest_fraction'] = O.dec(sf)
                 u = Money.new_unit(sym, **kw)
                 self._model_currency(sym, u)
+                if not hasattr(self, 'user_currencies'):
+                    self.user_currencies = set()
+                self.user_currencies.add(sym)
                 return ('ok', u)
             raise ValueError(ev)
         except Exception as exc:
@@ -390,7 +397,8 @@ class World:
             scale = None
             if tm.ref is not None:
                 r = self.um[tm.ref]
-                scale = fac / r.ufac
+                if tuple(udim) == tuple(r.udim):
+                    scale = fac / r.ufac
             um = UnitM(sym, tname, scale, udim)
             um.ufac = fac
         else:   # definition-less
